@@ -101,10 +101,31 @@ func (t *termRange) Enumerate(filter filterFunc) [][]byte {
 			if filter(next) {
 				rv = append(rv, next)
 			}
+			// only prefix coded terms can pass the filter: step to the
+			// next one instead of walking every byte value in between
+			next = incrementPrefixCoded(next)
 		} else {
 			rv = append(rv, next)
+			next = incrementBytes(next)
 		}
-		next = incrementBytes(next)
+	}
+	return rv
+}
+
+// incrementPrefixCoded returns the prefix coded term that follows in, for
+// the same shift: the bytes after the leading shift byte are base-128
+// digits, so a digit exceeding 0x7f carries into the previous one. Walking
+// with incrementBytes instead passes through every byte value above 0x7f,
+// 256^k steps when the range crosses a carry over k digits.
+func incrementPrefixCoded(in []byte) []byte {
+	rv := make([]byte, len(in))
+	copy(rv, in)
+	for i := len(rv) - 1; i >= 0; i-- {
+		rv[i]++
+		if i == 0 || rv[i] <= 0x7f {
+			break
+		}
+		rv[i] = 0
 	}
 	return rv
 }
